@@ -84,6 +84,9 @@ class Contract:
         self.frame_after = a.get("post_state", None)
         self.finite_scope = a.get("finite_scope", None)
         self.timeout_s = a.get("timeout_s", None)
+        self.abstract_round = bool(a.get("abstract_round", False))
+        self.dep = bool(deco_kw.get("dep", False))
+        self.modular_ensures = a.get("modular_ensures", None)
 
     # ---- modular use at a call site
     def apply_modular(self, ip, func, env):
@@ -122,11 +125,13 @@ class Contract:
         try:
             av = dict(argv)
             av["result"] = res
-            for nm, cl in self.ensures.items():
+            ens = self.modular_ensures if self.modular_ensures is not None else self.ensures
+            for nm, cl in ens.items():
                 t = ip.truth(call_clause(ip, cl, av))
                 ip.assume(to_bool_term(t) if not isinstance(t, bool) else t)
         finally:
             ip.pure -= 1
+        ip.call_log.setdefault(self.target, []).append(I.NS(args=I.NS(**argv), result=res))
         return res
 
 
@@ -243,6 +248,7 @@ class PathResult:
         self.pc = pc
         self.args = args
         self.obligations = obligations
+        self.calls = dict(ip.call_log)
         self.used_contracts = set(ip.used_contracts)
         self.used_inlined = set(ip.used_inlined)
         self.decisions = [d[0] for d in ip.decisions]
@@ -287,7 +293,40 @@ def smt2_of(pc, goal):
     return s.to_smt2()
 
 
+def _conjuncts(goal):
+    if z3.is_and(goal):
+        out = []
+        for ch in goal.children():
+            out += _conjuncts(ch)
+        return out
+    return [goal]
+
+
 def solve(pc, goal, timeout_s=10, want_model=True, use_cvc5=True):
+    """validity of pc => goal; a conjunctive goal that is not decided as a whole is split
+    into its conjuncts (each must be valid)."""
+    parts = _conjuncts(z3.simplify(goal))
+    r = solve1(pc, goal, min(timeout_s, 3) if len(parts) > 1 else timeout_s, want_model, use_cvc5=False)
+    if r["verdict"] != "unknown":
+        return r
+    if len(parts) > 1:
+        t0 = time.time()
+        backends = set()
+        for g in parts:
+            rp = solve1(pc, g, timeout_s, want_model, use_cvc5)
+            backends.add(rp["backend"])
+            if rp["verdict"] != "unsat":
+                rp["time"] = time.time() - t0 + r["time"]
+                return rp
+        return {"verdict": "unsat", "backend": "+".join(sorted(backends)) + "(split)", "time": time.time() - t0 + r["time"]}
+    if use_cvc5:
+        r2 = solve1(pc, goal, timeout_s, want_model, use_cvc5=True)
+        r2["time"] += r["time"]
+        return r2
+    return r
+
+
+def solve1(pc, goal, timeout_s=10, want_model=True, use_cvc5=True):
     """validity of pc => goal.  returns dict(verdict=unsat|sat|unknown, backend, time, model)"""
     t0 = time.time()
     s = z3.Solver()
@@ -451,6 +490,7 @@ def verify_contract(world, c, tier="quick", loop_support=None, known=None):
             if c.free:
                 f = resolve_function(world, ip, c.target, free)
             ip.top_func = f
+            ip.abstract_round = c.abstract_round
             if loop_support is not None:
                 loop_support.install(ip, c, f, allv)
             args, kw = _positional(f, argv)
@@ -482,6 +522,8 @@ def verify_contract(world, c, tier="quick", loop_support=None, known=None):
             for t in pr.pc:
                 ipc.pc.append(t)
             av = dict(pr.args)
+            av["calls"] = pr.calls
+            pr.args["calls"] = pr.calls
             if pr.kind == "return":
                 covers["returns"] += 1
                 av["result"] = pr.value
@@ -533,7 +575,7 @@ def verify_contract(world, c, tier="quick", loop_support=None, known=None):
                 rec["time"] = round(rec["time"] + r2["time"], 4)
                 if r2["verdict"] == "unsat":
                     # every counterexample lies inside the recorded witness class
-                    rec.update({"verdict": "unsat", "backend": r2["backend"], "known": {"id": kf["id"], "description": kf["description"]}, "known_witness_model": {k: S.to_json(v, r["model"]) for k, v in (o.inputs or {}).items()}})
+                    rec.update({"verdict": "unsat", "backend": r2["backend"], "known": {"id": kf["id"], "description": kf["description"]}, "known_witness_model": {k: S.to_json(v, r["model"]) for k, v in (o.inputs or {}).items() if k != "calls"}})
                     r = r2
                 else:
                     r = r2
@@ -542,14 +584,14 @@ def verify_contract(world, c, tier="quick", loop_support=None, known=None):
                 break
         if r["verdict"] == "sat" and "model" in r:
             try:
-                rec["model_args"] = {k: S.to_json(v, r["model"]) for k, v in (o.inputs or {}).items()}
+                rec["model_args"] = {k: S.to_json(v, r["model"]) for k, v in (o.inputs or {}).items() if k != "calls"}
                 for ek, ev in o.extra.items():
                     rec["model_" + ek] = S.to_json(ev, r["model"]) if not isinstance(ev, str) else ev
             except Exception as e:  # model printing must never hide a verdict
                 rec["model_error"] = repr(e)
         if r["verdict"] != "unsat":
             try:
-                rec["smt2"] = smt2_of(o.pc, o.goal)[:20000]
+                rec["smt2"] = smt2_of(o.pc, o.goal)
             except Exception:
                 pass
             if "reason" in r:
